@@ -44,56 +44,57 @@ theorem FO.mono {b b' : Nat} (h : b ≤ b') {e : FExpr} (he : FO b e) : FO b' e 
 def Sound (n : Net) : Prop :=
   ∀ p v, n.status p = some v → evalS n.status (n.spec p) = some v
 
-/-- `q` is the handle that building `e` yielded (as recorded in the ghost specs) -/
-def RootOf (n : Net) : Nat → FExpr → Prop
+/-- `q` is the handle that building `e` yielded (as recorded in the ghost specs); every promise the
+    construction allocated (every node that is not a mere reference) has an index `≥ lo` -/
+def RootOf (n : Net) (lo : Nat) : Nat → FExpr → Prop
   | q, .ref p => q = p
-  | q, .successful v => q < n.next ∧ n.spec q = .successful v
-  | q, .failed e => q < n.next ∧ n.spec q = .failed e
+  | q, .successful v => lo ≤ q ∧ q < n.next ∧ n.spec q = .successful v
+  | q, .failed e => lo ≤ q ∧ q < n.next ∧ n.spec q = .failed e
   | _, .successfulOf _ => False
-  | q, .logged _ e => RootOf n q e
-  | q, .flatMap e k => ∃ p, RootOf n p e ∧ q < n.next ∧ n.spec q = .flatMap (.ref p) k
-  | q, .transform e f => ∃ p, RootOf n p e ∧ q < n.next ∧ n.spec q = .transform (.ref p) f
-  | q, .transformWith e k => ∃ p, RootOf n p e ∧ q < n.next ∧ n.spec q = .transformWith (.ref p) k
-  | q, .recoverWith e d k => ∃ p, RootOf n p e ∧ q < n.next ∧ n.spec q = .recoverWith (.ref p) d k
-  | q, .orFuture e alt => ∃ p a, RootOf n p e ∧ RootOf n a alt ∧ q < n.next ∧ n.spec q = .orFuture (.ref p) (.ref a)
-  | q, .apply f => q < n.next ∧ n.spec q = .apply f
+  | q, .logged _ e => RootOf n lo q e
+  | q, .flatMap e k => ∃ p, RootOf n lo p e ∧ lo ≤ q ∧ q < n.next ∧ n.spec q = .flatMap (.ref p) k
+  | q, .transform e f => ∃ p, RootOf n lo p e ∧ lo ≤ q ∧ q < n.next ∧ n.spec q = .transform (.ref p) f
+  | q, .transformWith e k => ∃ p, RootOf n lo p e ∧ lo ≤ q ∧ q < n.next ∧ n.spec q = .transformWith (.ref p) k
+  | q, .recoverWith e d k => ∃ p, RootOf n lo p e ∧ lo ≤ q ∧ q < n.next ∧ n.spec q = .recoverWith (.ref p) d k
+  | q, .orFuture e alt => ∃ p a, RootOf n lo p e ∧ RootOf n lo a alt ∧ lo ≤ q ∧ q < n.next ∧ n.spec q = .orFuture (.ref p) (.ref a)
+  | q, .apply f => lo ≤ q ∧ q < n.next ∧ n.spec q = .apply f
 
 /-- In a sound network the root handle of `e`, once completed, holds what `e` evaluates to. -/
-theorem root_sound (n : Net) (hs : Sound n) (e : FExpr) (q : Nat) (r : Try Val)
-    (hr : RootOf n q e) (hq : n.status q = some r) : evalS n.status e = some r := by
+theorem root_sound (n : Net) (hs : Sound n) (lo : Nat) (e : FExpr) (q : Nat) (r : Try Val)
+    (hr : RootOf n lo q e) (hq : n.status q = some r) : evalS n.status e = some r := by
   induction e generalizing q r with
   | ref p => simp only [RootOf] at hr; subst hr; simpa [evalS] using hq
-  | successful v => have := hs q r hq; rw [hr.2] at this; exact this
-  | failed x => have := hs q r hq; rw [hr.2] at this; exact this
+  | successful v => have := hs q r hq; rw [hr.2.2] at this; exact this
+  | failed x => have := hs q r hq; rw [hr.2.2] at this; exact this
   | successfulOf e _ => exact absurd hr (by simp [RootOf])
   | logged evs e ih => exact ih q r hr hq
   | flatMap e k ihe _ =>
-    obtain ⟨p, hp, _, hsp⟩ := hr
+    obtain ⟨p, hp, _, _, hsp⟩ := hr
     have h := hs q r hq; rw [hsp] at h
     simp only [evalS] at h ⊢
     rcases bindOk_some h with ⟨v, hv, hk⟩ | ⟨err, he, hr'⟩
     · rw [ihe p _ hp hv]; simpa [bindOk] using hk
     · rw [ihe p _ hp he]; simp [bindOk, hr']
   | transform e f ih =>
-    obtain ⟨p, hp, _, hsp⟩ := hr
+    obtain ⟨p, hp, _, _, hsp⟩ := hr
     have h := hs q r hq; rw [hsp] at h
     simp only [evalS, Option.map_eq_some_iff] at h ⊢
     obtain ⟨t, ht, hr'⟩ := h
     exact ⟨t, ih p t hp ht, hr'⟩
   | transformWith e k ihe _ =>
-    obtain ⟨p, hp, _, hsp⟩ := hr
+    obtain ⟨p, hp, _, _, hsp⟩ := hr
     have h := hs q r hq; rw [hsp] at h
     simp only [evalS] at h ⊢
     obtain ⟨t, ht, hk⟩ := bindTry_some h
     rw [ihe p t hp ht]; simpa [bindTry] using hk
   | recoverWith e d k ihe _ =>
-    obtain ⟨p, hp, _, hsp⟩ := hr
+    obtain ⟨p, hp, _, _, hsp⟩ := hr
     have h := hs q r hq; rw [hsp] at h
     simp only [evalS] at h ⊢
     obtain ⟨t, ht, hk⟩ := bindTry_some h
     rw [ihe p t hp ht]; simpa [bindTry] using hk
   | orFuture e alt ihe iha =>
-    obtain ⟨p, a, hp, ha, _, hsp⟩ := hr
+    obtain ⟨p, a, hp, ha, _, _, hsp⟩ := hr
     have h := hs q r hq; rw [hsp] at h
     simp only [evalS] at h ⊢
     obtain ⟨t, ht, hk⟩ := bindTry_some h
@@ -103,7 +104,33 @@ theorem root_sound (n : Net) (hs : Sound n) (e : FExpr) (q : Nat) (r : Try Val)
     | failure err =>
       simp only [bindTry] at hk ⊢
       exact iha a r ha hk
-  | apply f => have := hs q r hq; rw [hr.2] at this; exact this
+  | apply f => have := hs q r hq; rw [hr.2.2] at this; exact this
+
+/-- a smaller lower bound is a weaker statement -/
+theorem rootOf_lo_mono (n : Net) {lo lo' : Nat} (hl : lo' ≤ lo) (e : FExpr) (q : Nat) (hr : RootOf n lo q e) :
+    RootOf n lo' q e := by
+  induction e generalizing q with
+  | ref p => exact hr
+  | successful v => exact ⟨Nat.le_trans hl hr.1, hr.2⟩
+  | failed x => exact ⟨Nat.le_trans hl hr.1, hr.2⟩
+  | successfulOf e _ => exact absurd hr (by simp [RootOf])
+  | logged evs e ih => exact ih q hr
+  | flatMap e k ihe _ =>
+    obtain ⟨p, hp, hlo, hrest⟩ := hr
+    exact ⟨p, ihe p hp, Nat.le_trans hl hlo, hrest⟩
+  | transform e f ih =>
+    obtain ⟨p, hp, hlo, hrest⟩ := hr
+    exact ⟨p, ih p hp, Nat.le_trans hl hlo, hrest⟩
+  | transformWith e k ihe _ =>
+    obtain ⟨p, hp, hlo, hrest⟩ := hr
+    exact ⟨p, ihe p hp, Nat.le_trans hl hlo, hrest⟩
+  | recoverWith e d k ihe _ =>
+    obtain ⟨p, hp, hlo, hrest⟩ := hr
+    exact ⟨p, ihe p hp, Nat.le_trans hl hlo, hrest⟩
+  | orFuture e alt ihe iha =>
+    obtain ⟨p, a, hp, ha, hlo, hrest⟩ := hr
+    exact ⟨p, a, ihe p hp, iha a ha, Nat.le_trans hl hlo, hrest⟩
+  | apply f => exact ⟨Nat.le_trans hl hr.1, hr.2⟩
 
 
 -- the invariant -------------------------------------------------------------------------------------------
@@ -128,7 +155,7 @@ def Justifies (n : Net) (np : Nat) (e : FExpr) : Prop :=
 /-- what a callback registered on (or a task carrying the result of) promise `q` is entitled to do -/
 def CbOK (n : Net) (q : Nat) : CB → Prop
   | .flatMapA k np => np < n.next ∧ n.spec np = .flatMap (.ref q) k ∧ ∀ v, FO n.next (k v)
-  | .completeWith np => np < n.next ∧ ∃ e, RootOf n q e ∧ Justifies n np e
+  | .completeWith np => np < n.next ∧ ∃ e lo, np < lo ∧ RootOf n lo q e ∧ Justifies n np e
   | .transformA f np => np < n.next ∧ n.spec np = .transform (.ref q) f
   | .transformWithA k np => np < n.next ∧ n.spec np = .transformWith (.ref q) k ∧ ∀ t, FO n.next (k t)
   | .recoverWithA d k np => np < n.next ∧ n.spec np = .recoverWith (.ref q) d k ∧ ∀ x, FO n.next (k x)
@@ -146,29 +173,30 @@ structure Inv (nsrc : Nat) (n : Net) : Prop where
   fresh : ∀ p, n.next ≤ p → n.status p = none
   srcs : nsrc ≤ n.next ∧ ∀ p, p < nsrc → n.spec p = .ref p
 
-theorem rootOf_le {n n' : Net} (h : Le n n') (e : FExpr) (q : Nat) (hr : RootOf n q e) : RootOf n' q e := by
+theorem rootOf_le {n n' : Net} (h : Le n n') {lo : Nat} (e : FExpr) (q : Nat) (hr : RootOf n lo q e) :
+    RootOf n' lo q e := by
   induction e generalizing q with
   | ref p => exact hr
-  | successful v => exact ⟨Nat.lt_of_lt_of_le hr.1 h.next, by rw [h.spec q hr.1]; exact hr.2⟩
-  | failed x => exact ⟨Nat.lt_of_lt_of_le hr.1 h.next, by rw [h.spec q hr.1]; exact hr.2⟩
+  | successful v => exact ⟨hr.1, Nat.lt_of_lt_of_le hr.2.1 h.next, by rw [h.spec q hr.2.1]; exact hr.2.2⟩
+  | failed x => exact ⟨hr.1, Nat.lt_of_lt_of_le hr.2.1 h.next, by rw [h.spec q hr.2.1]; exact hr.2.2⟩
   | successfulOf e _ => exact absurd hr (by simp [RootOf])
   | logged evs e ih => exact ih q hr
   | flatMap e k ihe _ =>
-    obtain ⟨p, hp, hq, hsp⟩ := hr
-    exact ⟨p, ihe p hp, Nat.lt_of_lt_of_le hq h.next, by rw [h.spec q hq]; exact hsp⟩
+    obtain ⟨p, hp, hlo, hq, hsp⟩ := hr
+    exact ⟨p, ihe p hp, hlo, Nat.lt_of_lt_of_le hq h.next, by rw [h.spec q hq]; exact hsp⟩
   | transform e f ih =>
-    obtain ⟨p, hp, hq, hsp⟩ := hr
-    exact ⟨p, ih p hp, Nat.lt_of_lt_of_le hq h.next, by rw [h.spec q hq]; exact hsp⟩
+    obtain ⟨p, hp, hlo, hq, hsp⟩ := hr
+    exact ⟨p, ih p hp, hlo, Nat.lt_of_lt_of_le hq h.next, by rw [h.spec q hq]; exact hsp⟩
   | transformWith e k ihe _ =>
-    obtain ⟨p, hp, hq, hsp⟩ := hr
-    exact ⟨p, ihe p hp, Nat.lt_of_lt_of_le hq h.next, by rw [h.spec q hq]; exact hsp⟩
+    obtain ⟨p, hp, hlo, hq, hsp⟩ := hr
+    exact ⟨p, ihe p hp, hlo, Nat.lt_of_lt_of_le hq h.next, by rw [h.spec q hq]; exact hsp⟩
   | recoverWith e d k ihe _ =>
-    obtain ⟨p, hp, hq, hsp⟩ := hr
-    exact ⟨p, ihe p hp, Nat.lt_of_lt_of_le hq h.next, by rw [h.spec q hq]; exact hsp⟩
+    obtain ⟨p, hp, hlo, hq, hsp⟩ := hr
+    exact ⟨p, ihe p hp, hlo, Nat.lt_of_lt_of_le hq h.next, by rw [h.spec q hq]; exact hsp⟩
   | orFuture e alt ihe iha =>
-    obtain ⟨p, a, hp, ha, hq, hsp⟩ := hr
-    exact ⟨p, a, ihe p hp, iha a ha, Nat.lt_of_lt_of_le hq h.next, by rw [h.spec q hq]; exact hsp⟩
-  | apply f => exact ⟨Nat.lt_of_lt_of_le hr.1 h.next, by rw [h.spec q hr.1]; exact hr.2⟩
+    obtain ⟨p, a, hp, ha, hlo, hq, hsp⟩ := hr
+    exact ⟨p, a, ihe p hp, iha a ha, hlo, Nat.lt_of_lt_of_le hq h.next, by rw [h.spec q hq]; exact hsp⟩
+  | apply f => exact ⟨hr.1, Nat.lt_of_lt_of_le hr.2.1 h.next, by rw [h.spec q hr.2.1]; exact hr.2.2⟩
 
 theorem justifies_le {n n' : Net} (h : Le n n') (np : Nat) (hnp : np < n.next) (e : FExpr)
     (hj : Justifies n np e) : Justifies n' np e := by
@@ -182,8 +210,8 @@ theorem cbOK_le {n n' : Net} (h : Le n n') (q : Nat) (c : CB) (hc : CbOK n q c) 
     obtain ⟨h1, h2, h3⟩ := hc
     exact ⟨Nat.lt_of_lt_of_le h1 h.next, by rw [h.spec np h1]; exact h2, fun v => (h3 v).mono h.next⟩
   | completeWith np =>
-    obtain ⟨h1, e, hr, hj⟩ := hc
-    exact ⟨Nat.lt_of_lt_of_le h1 h.next, e, rootOf_le h e q hr, justifies_le h np h1 e hj⟩
+    obtain ⟨h1, e, lo, hlo, hr, hj⟩ := hc
+    exact ⟨Nat.lt_of_lt_of_le h1 h.next, e, lo, hlo, rootOf_le h e q hr, justifies_le h np h1 e hj⟩
   | transformA f np =>
     obtain ⟨h1, h2⟩ := hc
     exact ⟨Nat.lt_of_lt_of_le h1 h.next, by rw [h.spec np h1]; exact h2⟩
@@ -327,7 +355,7 @@ theorem inv_fresh {nsrc : Nat} {n : Net} (h : Inv nsrc n) (sp : FExpr) :
 structure BuildOK (nsrc : Nat) (n : Net) (e : FExpr) (q : Nat) (n' : Net) : Prop where
   inv : Inv nsrc n'
   le : Le n n'
-  root : RootOf n' q e
+  root : RootOf n' n.next q e
   alloc : q < n'.next
 
 /-- one new promise for `sp` whose completion callback `c` is registered on `p` -/
@@ -356,7 +384,7 @@ theorem inv_build {nsrc : Nat} (e : FExpr) : ∀ (n : Net), Inv nsrc n → FO n.
     show BuildOK nsrc n _ n.next (complete n.next (.success v) (fresh (.successful v) n).2)
     have hlt : n.next < (complete n.next (.success v) (fresh (.successful v) n).2).next := by
       have := hle2.next; rw [hnx] at this; omega
-    refine ⟨hi2, hle.trans hle2, ⟨hlt, ?_⟩, hlt⟩
+    refine ⟨hi2, hle.trans hle2, ⟨Nat.le_refl _, hlt, ?_⟩, hlt⟩
     rw [hle2.spec n.next (by rw [hnx]; omega)]; exact hsp
   | failed x =>
     intro n h _
@@ -366,7 +394,7 @@ theorem inv_build {nsrc : Nat} (e : FExpr) : ∀ (n : Net), Inv nsrc n → FO n.
     show BuildOK nsrc n _ n.next (complete n.next (.failure x) (fresh (.failed x) n).2)
     have hlt : n.next < (complete n.next (.failure x) (fresh (.failed x) n).2).next := by
       have := hle2.next; rw [hnx] at this; omega
-    refine ⟨hi2, hle.trans hle2, ⟨hlt, ?_⟩, hlt⟩
+    refine ⟨hi2, hle.trans hle2, ⟨Nat.le_refl _, hlt, ?_⟩, hlt⟩
     rw [hle2.spec n.next (by rw [hnx]; omega)]; exact hsp
   | successfulOf e _ => intro n _ hfo; cases hfo
   | logged evs e ih =>
@@ -388,7 +416,7 @@ theorem inv_build {nsrc : Nat} (e : FExpr) : ∀ (n : Net), Inv nsrc n → FO n.
       obtain ⟨hi3, hle3, hlt, hsp⟩ := node_ok hi1 (.flatMap (.ref p) k) p (.flatMapA k n1.next)
         (fun n2 hle2 hnx hs => ⟨by rw [hnx]; omega, hs,
           fun v => (hk v).mono (Nat.le_trans hle1.next hle2.next)⟩)
-      exact ⟨hi3, hle1.trans hle3, ⟨p, rootOf_le hle3 e p hr1, hlt, hsp⟩, hlt⟩
+      exact ⟨hi3, hle1.trans hle3, ⟨p, rootOf_le hle3 e p hr1, hle1.next, hlt, hsp⟩, hlt⟩
   | transform e f ih =>
     intro n h hfo
     cases hfo with
@@ -400,7 +428,7 @@ theorem inv_build {nsrc : Nat} (e : FExpr) : ∀ (n : Net), Inv nsrc n → FO n.
       simp only at hi1 hle1 hr1 ha1 ⊢
       obtain ⟨hi3, hle3, hlt, hsp⟩ := node_ok hi1 (.transform (.ref p) f) p (.transformA f n1.next)
         (fun n2 hle2 hnx hs => ⟨by rw [hnx]; omega, hs⟩)
-      exact ⟨hi3, hle1.trans hle3, ⟨p, rootOf_le hle3 e p hr1, hlt, hsp⟩, hlt⟩
+      exact ⟨hi3, hle1.trans hle3, ⟨p, rootOf_le hle3 e p hr1, hle1.next, hlt, hsp⟩, hlt⟩
   | transformWith e k ihe _ =>
     intro n h hfo
     cases hfo with
@@ -413,7 +441,7 @@ theorem inv_build {nsrc : Nat} (e : FExpr) : ∀ (n : Net), Inv nsrc n → FO n.
       obtain ⟨hi3, hle3, hlt, hsp⟩ := node_ok hi1 (.transformWith (.ref p) k) p (.transformWithA k n1.next)
         (fun n2 hle2 hnx hs => ⟨by rw [hnx]; omega, hs,
           fun v => (hk v).mono (Nat.le_trans hle1.next hle2.next)⟩)
-      exact ⟨hi3, hle1.trans hle3, ⟨p, rootOf_le hle3 e p hr1, hlt, hsp⟩, hlt⟩
+      exact ⟨hi3, hle1.trans hle3, ⟨p, rootOf_le hle3 e p hr1, hle1.next, hlt, hsp⟩, hlt⟩
   | recoverWith e d k ihe _ =>
     intro n h hfo
     cases hfo with
@@ -426,7 +454,7 @@ theorem inv_build {nsrc : Nat} (e : FExpr) : ∀ (n : Net), Inv nsrc n → FO n.
       obtain ⟨hi3, hle3, hlt, hsp⟩ := node_ok hi1 (.recoverWith (.ref p) d k) p (.recoverWithA d k n1.next)
         (fun n2 hle2 hnx hs => ⟨by rw [hnx]; omega, hs,
           fun v => (hk v).mono (Nat.le_trans hle1.next hle2.next)⟩)
-      exact ⟨hi3, hle1.trans hle3, ⟨p, rootOf_le hle3 e p hr1, hlt, hsp⟩, hlt⟩
+      exact ⟨hi3, hle1.trans hle3, ⟨p, rootOf_le hle3 e p hr1, hle1.next, hlt, hsp⟩, hlt⟩
   | orFuture e alt ihe iha =>
     intro n h hfo
     cases hfo with
@@ -443,7 +471,9 @@ theorem inv_build {nsrc : Nat} (e : FExpr) : ∀ (n : Net), Inv nsrc n → FO n.
       obtain ⟨hi3, hle3, hlt, hsp⟩ := node_ok hi2 (.orFuture (.ref p) (.ref a)) p (.orFutureA a n2.next)
         (fun n3 _ hnx hs => ⟨by rw [hnx]; omega, hs⟩)
       exact ⟨hi3, (hle1.trans hle2).trans hle3,
-        ⟨p, a, rootOf_le (hle2.trans hle3) e p hr1, rootOf_le hle3 alt a hr2, hlt, hsp⟩, hlt⟩
+        ⟨p, a, rootOf_le (hle2.trans hle3) e p hr1,
+         rootOf_lo_mono _ hle1.next alt a (rootOf_le hle3 alt a hr2),
+         Nat.le_trans hle1.next hle2.next, hlt, hsp⟩, hlt⟩
   | apply f =>
     intro n h _
     obtain ⟨hi, hle, _, hnx, hsp, hst⟩ := inv_fresh h (.apply f)
@@ -454,7 +484,7 @@ theorem inv_build {nsrc : Nat} (e : FExpr) : ∀ (n : Net), Inv nsrc n → FO n.
       le_of_eq rfl rfl rfl
     have hlt : n.next < (fresh (.apply f) n).2.next := by rw [hnx]; omega
     refine ⟨⟨hi.sound, ?_, fun q c hc => cbOK_le hle2 q c (hi.cbs q c hc), hi.fresh, hi.srcs⟩,
-      hle.trans hle2, ⟨hlt, hsp⟩, hlt⟩
+      hle.trans hle2, ⟨Nat.le_refl _, hlt, hsp⟩, hlt⟩
     intro tk htk
     simp only [List.mem_append, List.mem_singleton] at htk
     rcases htk with hold | rfl
@@ -479,7 +509,7 @@ theorem inv_chain {nsrc : Nat} {n : Net} (h : Inv nsrc n) (e : FExpr) (np : Nat)
     Le n (onComplete (build e n).1 (.completeWith np) (build e n).2) := by
   obtain ⟨hi, hle, hr, _⟩ := inv_build e n h hfo
   obtain ⟨hi2, hle2⟩ := inv_onComplete hi (build e n).1 (.completeWith np)
-    ⟨Nat.lt_of_lt_of_le hnp hle.next, e, hr, justifies_le hle np hnp e hj⟩
+    ⟨Nat.lt_of_lt_of_le hnp hle.next, e, n.next, hnp, hr, justifies_le hle np hnp e hj⟩
   exact ⟨hi2, hle.trans hle2⟩
 
 theorem inv_log {nsrc : Nat} {n : Net} (h : Inv nsrc n) (evs : List Event) :
@@ -509,11 +539,11 @@ theorem inv_runTask {nsrc : Nat} {n : Net} (h : Inv nsrc n) (tk : Task) (htk : T
           intro hn
           rw [hsp]; simp [evalS, upd_keep n np q _ _ hq hn, bindOk])
     | completeWith np =>
-      obtain ⟨hnp, e, hr, hj⟩ := hc
+      obtain ⟨hnp, e, lo, _, hr, hj⟩ := hc
       exact inv_complete h np t hnp (by
         intro hn
         rw [hj _ (ext_upd n np t hn)]
-        exact evalS_mono _ _ (ext_upd n np t hn) e t (root_sound n h.sound e q t hr hq))
+        exact evalS_mono _ _ (ext_upd n np t hn) e t (root_sound n h.sound lo e q t hr hq))
     | transformA f np =>
       obtain ⟨hnp, hsp⟩ := hc
       obtain ⟨hi0, hle0⟩ := inv_log h (f t).2
@@ -555,7 +585,7 @@ theorem inv_runTask {nsrc : Nat} {n : Net} (h : Inv nsrc n) (tk : Task) (htk : T
           intro hn
           rw [hsp]; simp [evalS, upd_keep n np q _ _ hq hn, bindTry])
       | failure e =>
-        exact inv_onComplete h alt (.completeWith np) ⟨hnp, .ref alt, rfl, by
+        exact inv_onComplete h alt (.completeWith np) ⟨hnp, .ref alt, np + 1, Nat.lt_succ_self _, rfl, by
           intro σ' hx
           rw [hsp]; simp [evalS, hx q _ hq, bindTry]⟩
     | observe id => exact inv_log h _
@@ -615,15 +645,14 @@ theorem sound_every_schedule (nsrc : Nat) (evs : List Ev) (hv : Valid nsrc (Net.
     Sound (runEvs (Net.empty nsrc) evs) :=
   (inv_run evs _ (inv_init nsrc) hv).sound
 
-/-- … in terms of the expression the program wrote: the handle `build e` returns, whenever it is
-    completed in any later state, holds the value of `e`. -/
-theorem built_future_sound (nsrc : Nat) (evs evs' : List Ev) (e : FExpr) (r : Try Val)
+/-- the handle `build e` returns is, in every later state, the root of `e` in the ghost specs -/
+theorem built_future_root (nsrc : Nat) (evs evs' : List Ev) (e : FExpr)
     (hv : Valid nsrc (Net.empty nsrc) (evs ++ .mk e :: evs')) :
     let n := runEvs (Net.empty nsrc) evs
     let q := (build e n).1
     let n' := runEvs (Net.empty nsrc) (evs ++ .mk e :: evs')
-    n'.status q = some r → evalS n'.status e = some r := by
-  intro n q n' hq
+    ∃ lo, RootOf n' lo q e := by
+  intro n q n'
   have hvalid : ∀ (l : List Ev) (m : Net), Valid nsrc m (l ++ .mk e :: evs') →
       Valid nsrc m l ∧ EvOK nsrc (runEvs m l) (.mk e) ∧ Valid nsrc (step (runEvs m l) (.mk e)) evs' := by
     intro l
@@ -667,10 +696,23 @@ theorem built_future_sound (nsrc : Nat) (evs evs' : List Ev) (e : FExpr) (r : Tr
         | mk e' => exact (inv_build e' m hm hval.1).le
         | obs p id => exact (inv_onComplete hm p (.observe id) trivial).2
       exact hstep.trans (ih _ (inv_step hm a hval.1) hval.2)
-  have hfinal : Inv nsrc n' := by rw [hrun]; exact inv_run evs' _ hb.inv hv3
-  have hroot : RootOf n' q e := by
+  have hroot : RootOf n' n.next q e := by
     rw [hrun]; exact rootOf_le (hle evs' _ hb.inv hv3) e q hb.root
-  exact root_sound n' hfinal.sound e q r hroot hq
+  exact ⟨n.next, hroot⟩
+
+
+
+/-- … in terms of the expression the program wrote: the handle `build e` returns, whenever it is
+    completed in any later state, holds the value of `e`. -/
+theorem built_future_sound (nsrc : Nat) (evs evs' : List Ev) (e : FExpr) (r : Try Val)
+    (hv : Valid nsrc (Net.empty nsrc) (evs ++ .mk e :: evs')) :
+    let n := runEvs (Net.empty nsrc) evs
+    let q := (build e n).1
+    let n' := runEvs (Net.empty nsrc) (evs ++ .mk e :: evs')
+    n'.status q = some r → evalS n'.status e = some r := by
+  intro n q n' hq
+  obtain ⟨lo, hroot⟩ := built_future_root nsrc evs evs' e hv
+  exact root_sound n' (inv_run _ _ (inv_init nsrc) hv).sound lo e q r hroot hq
 
 
 -- the derived combinators are in scope of the theorem ----------------------------------------------------------
